@@ -335,6 +335,13 @@ Variable O : T.oracles.
    redactEmail) inside the field array; the schema fits the field array; the tag template only names
    orchestration keys; both transform programs well-formed in C15's sense; every output's serialization section
    accepted by fluentdforward VerifyConfig; and the two repairs in place. *)
+(* an output the loader accepts: fluentdforward VerifyConfig; datadog needs nothing for the serializer *)
+Definition out_ok (cfg : config) (o : out_cfg) : Prop :=
+  match oc_kind o with
+  | OFluentd sc => S.verify_config (c_schema cfg) sc = true
+  | ODatadog _ => True
+  end.
+
 Record config_ok (cfg : config) : Prop := {
   ok_parser : ParserProofs.cfg_ok (c_parser cfg);
   ok_locs : locs_ok (c_nfields cfg) (c_locs cfg);
@@ -344,13 +351,19 @@ Record config_ok (cfg : config) : Prop := {
   ok_okeys : Forall (fun l => (l < c_nfields cfg)%nat) (c_okeys cfg);
   ok_mkeys : Forall (fun l => (l < c_nfields cfg)%nat) (c_mkeys cfg);
   ok_tag : Forall (TagTemplateProofs.part_wf (length (c_okeys cfg))) (c_tag cfg);
-  ok_outputs : Forall (fun o => S.verify_config (c_schema cfg) (oc_ser o) = true) (c_outputs cfg);
+  ok_outputs : Forall (out_ok cfg) (c_outputs cfg);
   ok_fix_labels : c_fix_labels cfg = true;
   ok_fix_ser : c_fix_ser cfg = true
 }.
 
-Definition sers_ok (cfg : config) (sers : list S.serializer) : Prop :=
-  Forall2 (fun o s => S.new_serializer (c_schema cfg) (oc_ser o) (c_buflen cfg) = Ok s) (c_outputs cfg) sers.
+Definition ser_ok (cfg : config) (o : out_cfg) (s : ser_inst) : Prop :=
+  match oc_kind o, s with
+  | OFluentd sc, SFluentd ser => S.new_serializer (c_schema cfg) sc (c_buflen cfg) = Ok ser
+  | ODatadog _, SDatadog masks _ => length masks = length (c_schema cfg)
+  | _, _ => False
+  end.
+
+Definition sers_ok (cfg : config) (sers : list ser_inst) : Prop := Forall2 (ser_ok cfg) (c_outputs cfg) sers.
 
 Definition pinst_ok (cfg : config) (pi : pinst) : Prop :=
   wf_xtfs O (c_nfields cfg) (pi_tfs pi) /\ sers_ok cfg (pi_sers pi) /\
@@ -378,20 +391,23 @@ Qed.
 Lemma cinv_new_conn : forall cfg g, config_ok cfg -> cinv cfg g (new_conn cfg).
 Proof. intros cfg g H. split; [apply RP.map_ok_nil|exact (ok_extract cfg H)]. Qed.
 
-Lemma new_serializers_ok : forall cfg outs,
-  Forall (fun o => S.verify_config (c_schema cfg) (oc_ser o) = true) outs ->
-  exists sers, new_serializers cfg outs = Ok sers /\
-    Forall2 (fun o s => S.new_serializer (c_schema cfg) (oc_ser o) (c_buflen cfg) = Ok s) outs sers.
+Lemma new_serializers_ok : forall cfg tag outs,
+  Forall (out_ok cfg) outs ->
+  exists sers, new_serializers cfg tag outs = Ok sers /\ Forall2 (ser_ok cfg) outs sers.
 Proof.
   induction outs as [|o outs IH]; intros H; [exists []; split; [reflexivity|constructor]|].
-  inversion H as [|? ? Ho Hr]; subst. cbn [new_serializers].
-  destruct (SerializerProofs.new_serializer_ok (c_schema cfg) (oc_ser o) (c_buflen cfg) Ho) as [s Es]. rewrite Es.
-  destruct (IH Hr) as (sers & E & F). rewrite E. cbn [pbind]. exists (s :: sers). split; [reflexivity|constructor; assumption].
+  inversion H as [|? ? Ho Hr]; subst. cbn [new_serializers]. destruct (IH Hr) as (sers & E & F).
+  unfold out_ok in Ho. destruct (oc_kind o) as [sc|hidden] eqn:Ek.
+  - destruct (SerializerProofs.new_serializer_ok (c_schema cfg) sc (c_buflen cfg) Ho) as [s Es]. rewrite Es.
+    rewrite E. cbn [pbind]. exists (SFluentd s :: sers). split; [reflexivity|]. constructor; [|exact F].
+    unfold ser_ok. rewrite Ek. exact Es.
+  - rewrite E. cbn [pbind]. eexists. split; [reflexivity|]. constructor; [|exact F].
+    unfold ser_ok. rewrite Ek. apply map_length.
 Qed.
 
 Lemma new_pinst_ok : forall cfg p, config_ok cfg -> exists pi, new_pinst cfg p = Ok pi /\ pinst_ok cfg pi.
 Proof.
-  intros cfg p H. unfold new_pinst. destruct (new_serializers_ok cfg (c_outputs cfg) (ok_outputs cfg H)) as (sers & E & F).
+  intros cfg p H. unfold new_pinst. destruct (new_serializers_ok cfg (R.p_tag p) (c_outputs cfg) (ok_outputs cfg H)) as (sers & E & F).
   rewrite E. cbn [pbind]. eexists. split; [reflexivity|]. unfold pinst_ok. cbn.
   split; [exact (ok_transforms cfg H)|]. split; [exact F|]. split; [apply map_length|].
   unfold pinst_metrics_ok. cbn. rewrite (ok_fix_labels cfg H). rewrite labels_ok_fixed. reflexivity.
@@ -452,27 +468,53 @@ Proof.
     rewrite Hm1. rewrite forallb_app, Hm2. cbn [forallb andb]. rewrite labels_ok_fixed. reflexivity.
 Qed.
 
+(* what the stream of an output must be: for fluentd the complete event of C10's specification *)
+Definition stream_ok (cfg : config) (rec : S.record) (o : out_cfg) (stream : bytes) : Prop :=
+  match oc_kind o with
+  | OFluentd sc => stream = SS.encode_spec (c_schema cfg) sc rec
+  | ODatadog _ => True
+  end.
+
+Lemma dd_fields_ok : forall names masks fields i,
+  length masks = length names -> (i + length names <= length fields)%nat ->
+  exists m, dd_fields i names masks fields = Ok m.
+Proof.
+  induction names as [|n names IH]; intros masks fields i Hm Hl; [exists []; reflexivity|].
+  destruct masks as [|m masks]; [discriminate|]. cbn [dd_fields]. cbn [length] in *.
+  destruct (IH masks fields (S i) ltac:(lia) ltac:(lia)) as [r Er].
+  destruct m; [exists r; exact Er|].
+  destruct (get_checked_ok fields i ltac:(lia)) as [v Ev]. rewrite Ev. cbn [pbind]. rewrite Er. cbn [pbind].
+  eexists. reflexivity.
+Qed.
+
 Lemma run_outputs_ok : forall cfg tag clk (rec : S.record) outs sers packs,
   c_fix_ser cfg = true ->
   (length (c_schema cfg) <= length (S.r_fields rec))%nat ->
-  Forall (fun o => S.verify_config (c_schema cfg) (oc_ser o) = true) outs ->
-  Forall2 (fun o s => S.new_serializer (c_schema cfg) (oc_ser o) (c_buflen cfg) = Ok s) outs sers ->
+  Forall (out_ok cfg) outs ->
+  Forall2 (ser_ok cfg) outs sers ->
   length packs = length outs ->
-  exists packs' chunks,
-    run_outputs cfg tag clk outs sers packs rec
-    = Ok (packs', map (fun o => SS.encode_spec (c_schema cfg) (oc_ser o) rec) outs, chunks) /\
-    length packs' = length outs.
+  exists packs' streams chunks,
+    run_outputs cfg tag clk outs sers packs rec = Ok (packs', streams, chunks) /\
+    Forall2 (stream_ok cfg rec) outs streams /\ length packs' = length outs.
 Proof.
   intros cfg tag clk rec outs. induction outs as [|o outs IH]; intros sers packs Hfix Hl Hv Hs Hp.
-  - exists [], []. split; reflexivity.
+  - exists [], [], []. split; [reflexivity|]. split; [constructor|reflexivity].
   - inversion Hv as [|? ? Vo Vr]; subst. inversion Hs as [|? s ? sers' So Sr]; subst.
-    destruct packs as [|p packs]; [discriminate|]. cbn [run_outputs]. rewrite Hfix.
-    rewrite (PipelineSerializerProofs.serialize_fixed_total (c_schema cfg) (oc_ser o) rec (c_buflen cfg) s
-               (SerializerProofs.verified_chain _ _ Vo) Hl So).
-    cbn [pbind].
-    destruct (K.write_stream bytes stream_len (with_tag (oc_pack o) tag) clk p _) as [p' ch].
-    destruct (IH sers' packs Hfix Hl Vr Sr ltac:(cbn in Hp; lia)) as (packs' & chunks & E & L).
-    rewrite E. cbn [pbind]. exists (p' :: packs'), (ch :: chunks). split; [reflexivity|cbn; lia].
+    destruct packs as [|p packs]; [discriminate|]. cbn [run_outputs].
+    assert (Hser : exists stream, serialize_with cfg s rec = Ok stream /\ stream_ok cfg rec o stream).
+    { unfold ser_ok in So. unfold out_ok in Vo. unfold stream_ok.
+      destruct (oc_kind o) as [sc|hidden]; destruct s as [ser|masks tags]; try contradiction.
+      - eexists. split; [|reflexivity]. cbn [serialize_with]. rewrite Hfix.
+        apply (PipelineSerializerProofs.serialize_fixed_total (c_schema cfg) sc rec (c_buflen cfg) ser
+                 (SerializerProofs.verified_chain _ _ Vo) Hl So).
+      - cbn [serialize_with]. unfold dd_serialize.
+        destruct (dd_fields_ok (c_schema cfg) masks (S.r_fields rec) 0 So ltac:(lia)) as [m Em].
+        rewrite Em. cbn [pbind]. eexists. split; [reflexivity|exact I]. }
+    destruct Hser as (stream & Es & Hso). rewrite Es. cbn [pbind].
+    destruct (K.write_stream bytes stream_len (with_tag (oc_pack o) tag) clk p stream) as [p' ch].
+    destruct (IH sers' packs Hfix Hl Vr Sr ltac:(cbn in Hp; lia)) as (packs' & streams & chunks & E & F & L).
+    rewrite E. cbn [pbind]. exists (p' :: packs'), (stream :: streams), (ch :: chunks).
+    split; [reflexivity|]. split; [constructor; assumption|cbn; lia].
 Qed.
 
 Lemma set_pinst_length : forall l i x, length (set_pinst l i x) = length l.
@@ -483,15 +525,15 @@ Proof.
   induction l as [|y l IH]; intros [|i] x Hl Hx; cbn; try assumption; inversion Hl; subst; constructor; auto.
 Qed.
 
-(* what a passed record looks like: one complete, non-empty event per output *)
+(* what a passed record looks like: one stream per output, for a fluentd output the complete, non-empty event *)
 Definition streams_complete (cfg : config) (rec : S.record) (streams : list bytes) : Prop :=
-  streams = map (fun o => SS.encode_spec (c_schema cfg) (oc_ser o) rec) (c_outputs cfg).
+  Forall2 (stream_ok cfg rec) (c_outputs cfg) streams.
 
 Lemma worker_step_ok : forall cfg pi idx clk (p : prec),
   config_ok cfg -> pinst_ok cfg pi -> length (T.r_fields (fst p)) = c_nfields cfg ->
   exists pi' res, worker_step O cfg pi idx clk p = Ok (pi', res) /\ pinst_ok cfg pi' /\
     (res = RDropTransform idx \/
-     exists rec chunks, res = RPassed idx (map (fun o => SS.encode_spec (c_schema cfg) (oc_ser o) rec) (c_outputs cfg)) chunks).
+     exists rec streams chunks, res = RPassed idx streams chunks /\ streams_complete cfg rec streams).
 Proof.
   intros cfg pi idx clk p H Hpi Hn. unfold worker_step.
   destruct (extract_keys_ok (c_mkeys cfg) (T.r_fields (fst p))) as (mkeys & Em & _).
@@ -503,14 +545,14 @@ Proof.
     as (tfs' & cnt' & p2 & pass & Ex & Hw2 & Hn2).
   rewrite Ex. cbn [pbind]. destruct pass.
   - destruct (run_outputs_ok cfg (pi_tag pi1) clk (to_srecord p2) (c_outputs cfg) (pi_sers pi1) (pi_packs pi1)
-                (ok_fix_ser cfg H)) as (packs' & chunks & Eo & Lo).
+                (ok_fix_ser cfg H)) as (packs' & streams & chunks & Eo & Fo & Lo).
     { cbn. rewrite Hn2. exact (ok_schema cfg H). }
     { exact (ok_outputs cfg H). }
     { exact Hs1. }
     { exact Hp1. }
     rewrite Eo. cbn [pbind]. do 2 eexists. split; [reflexivity|]. split.
     + unfold pinst_ok. cbn. repeat split; assumption.
-    + right. exists (to_srecord p2), chunks. reflexivity.
+    + right. exists (to_srecord p2), streams, chunks. split; [reflexivity|exact Fo].
   - do 2 eexists. split; [reflexivity|]. split.
     + unfold pinst_ok. cbn. repeat split; assumption.
     + left. reflexivity.
@@ -557,8 +599,8 @@ Proof.
     + rewrite set_pinst_length. exact Gl.
     + apply set_pinst_Forall; assumption.
   - destruct Hc2 as (Cm2 & Cx2). split; cbn [g_route]; assumption.
-  - destruct Hres as [->|(rec & chunks & ->)]; [exact I|]. exists rec. reflexivity.
-  - destruct Hres as [->|(rec & chunks & ->)]; discriminate.
+  - destruct Hres as [->|(rec & streams & chunks & -> & Hsc)]; [exact I|]. exists rec. exact Hsc.
+  - destruct Hres as [->|(rec & streams & chunks & -> & Hsc)]; discriminate.
   - exact Ci.
 Qed.
 
@@ -942,19 +984,43 @@ From SV Require Props.C10 Spec.MsgpackSpec.
 Lemma passed_streams_decode : forall cfg res,
   result_shape cfg res ->
   (N.of_nat (length (c_schema cfg)) < 65535)%N ->
-  Forall (fun o => (N.of_nat (length (S.c_env (oc_ser o))) < 65536)%N) (c_outputs cfg) ->
   match res with
   | RPassed _ streams _ =>
       exists rec, Forall2 (fun o stream =>
-                     (N.of_nat (length stream) < 4294967296)%N ->
-                     MsgpackSpec.decode_all stream = Some (SS.event_tree (c_schema cfg) (oc_ser o) rec, []))
+                     match oc_kind o with
+                     | OFluentd sc =>
+                       (N.of_nat (length (S.c_env sc)) < 65536)%N ->
+                       (N.of_nat (length stream) < 4294967296)%N ->
+                       stream <> [] /\
+                       MsgpackSpec.decode_all stream = Some (SS.event_tree (c_schema cfg) sc rec, [])
+                     | ODatadog _ => True
+                     end)
                   (c_outputs cfg) streams
   | _ => True
   end.
 Proof.
-  intros cfg res Hs Hn He. destruct res as [| | |idx streams chunks]; try exact I.
-  destruct Hs as [rec Hs]. exists rec. unfold streams_complete in Hs. subst streams.
-  induction (c_outputs cfg) as [|o outs IH]; [constructor|].
-  inversion He as [|? ? Ho Hr]; subst. cbn [map]. constructor; [|apply IH; exact Hr].
-  intros Hlen. apply C10.C10_decode_encode; [apply C10.C10_small_event_small_strings; exact Hlen|exact Hn|exact Ho].
+  intros cfg res Hs Hn. destruct res as [| | |idx streams chunks]; try exact I.
+  destruct Hs as [rec Hs]. exists rec. unfold streams_complete in Hs.
+  induction Hs as [|o stream outs streams Ho Hr IH]; constructor; [|exact IH].
+  unfold stream_ok in Ho. destruct (oc_kind o) as [sc|hidden]; [|exact I].
+  intros He Hlen. subst stream. split; [apply PipelineSerializerProofs.encode_spec_nonempty|].
+  apply C10.C10_decode_encode; [apply C10.C10_small_event_small_strings; exact Hlen|exact Hn|exact He].
 Qed.
+
+(* the reader of a connection, whatever arrives: no panic, no busy loop, and afterwards a record of maximal length still
+   fits or the buffer is empty (C08_never_full for the listener's parameters) *)
+Lemma conn_reader_never_full : forall cfg evs, (1 <= record_limit cfg)%nat ->
+  exists st' records,
+    F.run_ops F.trs (F.conn_ops evs) (F.new_mlr (c_linebuf cfg) (record_limit cfg)) [] = Ok (st', records) /\
+    (length (F.m_buf st') <= F.m_cap st')%nat /\
+    (F.m_limit st' <= F.m_cap st' - length (F.m_buf st') \/ F.m_buf st' = [])%nat.
+Proof.
+  intros cfg evs Hl.
+  destruct (C08.C08_never_full F.trs (c_linebuf cfg) (record_limit cfg) (F.conn_ops evs) Hl) as (st' & out & E & H1 & H2 & _).
+  exists st', out. split; [exact E|]. split; [exact H1|exact H2].
+Qed.
+
+(* a tag template accepted by NewTagBuilder over the orchestration keys satisfies the tag condition of config_ok *)
+Lemma accepted_tag_ok : forall names t parts,
+  R.parse_template names t = Some parts -> Forall (TagTemplateProofs.part_wf (length names)) parts.
+Proof. exact TagTemplateProofs.parse_template_wf. Qed.
